@@ -94,16 +94,19 @@ def derivations(cx):
            and not (isinstance(s.value, ast.Constant) and isinstance(s.value.value, str))]
     vals = sorted(sym.show(sym.norm(s.value)) for s in tis)
     ti = {s.targets[0].id for s in tis}
-    ok2 = len(ti) == 1 and vals == sorted([sym.show(sym.norm('%s.range(0)[1]' % y)), sym.show(sym.norm('np.max(%s)' % y))])
-    cond = [s for s in lp.body if isinstance(s, ast.If) and 'range' in sym.show(sym.norm(s.test))]
-    ok3 = len(cond) == 1 and sym.norm(cond[0].test) in (
-        sym.norm("hasattr(%s, 'range') and hasattr(%s.range, '__call__')" % (y, y)),
-        sym.norm("hasattr(%s, 'range') and callable(%s.range)" % (y, y)), sym.norm("hasattr(%s, 'range')" % y)) \
-        and sym.norm(cond[0].body[0].value) == sym.norm('%s.range(0)[1]' % y)
-    upd = [s for s in lp.body if isinstance(s, ast.Assign) and isinstance(s.targets[0], ast.Name) and s.targets[0].id == 'T']
     Ti = list(ti)[0] if ti else '?'
-    ok4 = len(upd) == 1 and sym.norm(upd[0].value) in (sym.norm('%s if %s > T else T' % (Ti, Ti)), sym.norm('max(T, %s)' % Ti),
-                                                          sym.norm('max(%s, T)' % Ti))
+    wants = [sym.norm("%s.range(0)[1] if hasattr(%s, 'range') and hasattr(%s.range, '__call__') else np.max(%s)" % (y, y, y, y)),
+             sym.norm("%s.range(0)[1] if hasattr(%s, 'range') and callable(%s.range) else np.max(%s)" % (y, y, y, y)),
+             sym.norm("%s.range(0)[1] if hasattr(%s, 'range') else np.max(%s)" % (y, y, y))]
+    ok2 = len(tis) == 1 and sym.norm(tis[0].value) in wants
+    ok3 = ok2
+    upd = [s for s in lp.body if isinstance(s, ast.If) and sym.norm(s.test) == sym.norm('%s > T' % Ti) and not s.orelse
+           and len(s.body) == 1 and isinstance(s.body[0], ast.Assign) and sym.norm(s.body[0].targets[0]) == ('var', 'T')
+           and sym.norm(s.body[0].value) == ('var', Ti)]
+    upd2 = [s for s in lp.body if isinstance(s, ast.Assign) and isinstance(s.targets[0], ast.Name) and s.targets[0].id == 'T'
+            and sym.norm(s.value) in (sym.norm('max(T, %s)' % Ti), sym.norm('max(%s, T)' % Ti))]
+    ok4 = len(upd) + len(upd2) == 1 and not [s for s in ast.walk(lp) if isinstance(s, ast.Assign) and isinstance(s.targets[0], ast.Name)
+                                               and s.targets[0].id == 'T' and s not in upd2 and not any(s is u.body[0] for u in upd)]
     fn.ob('FORMULA', 'T is the largest channel range over the samples (largest value when no range is known)',
           bool(ok and ok2 and ok3 and ok4), blocks['T'],
           detail='' if (ok and ok2 and ok3 and ok4) else 'init ok=%s candidates=%s cond ok=%s update ok=%s' % (ok, vals, ok3, ok4),
@@ -116,20 +119,19 @@ def derivations(cx):
     ok2 = len(neg) == 1
     ok3 = ok4 = False
     if ok2:
-        asg = [s for s in neg[0].body if isinstance(s, ast.Assign)]
-        upd = [s for s in asg if s.targets[0].id == 'W']
-        wi = [s for s in asg if s.targets[0].id != 'W']
-        if len(upd) == 1 and wi:
-            got = fn.nf(upd[0].value, at=upd[0], stop=('W', 'M', 'T', y))
-            Wi = sym.norm('(M - np.log10(T / abs(np.min(%s)))) / 2' % y)
-            want1 = ('ifexp', sym.mk_cmp('Gt', Wi, ('var', 'W')), Wi, ('var', 'W'))
-            want2 = sym.norm('max(W, WI)', env={'WI': Wi})
-            ok3 = got in (want1, want2)
-            ok4 = all(s.targets[0].id == 'W' or not any(a is not neg[0] and isinstance(a, ast.If) for a in fn.ancestors(s) if any(b is neg[0] for b in fn.ancestors(a)))
-                      for s in asg)
-            detail = sym.show(got)
-        else:
-            detail = 'no single update of W'
+        Wi = sym.norm('(M - np.log10(T / abs(np.min(%s)))) / 2' % y)
+        ups = [s for s in ast.walk(neg[0]) if isinstance(s, ast.Assign) and isinstance(s.targets[0], ast.Name) and s.targets[0].id == 'W']
+        detail = 'no single update of W'
+        if len(ups) == 1:
+            u = ups[0]
+            par = fn.parent.get(id(u))
+            val = fn.nf(u.value, at=u, stop=('W', 'M', 'T', y))
+            if isinstance(par, ast.If) and par is not neg[0] and not par.orelse and len(par.body) == 1:
+                t = fn.nf(par.test, at=par, stop=('W', 'M', 'T', y))
+                ok3 = val == Wi and t == sym.mk_cmp('Gt', Wi, ('var', 'W'))
+            else:
+                ok3 = val in (sym.norm('max(W, WI)', env={'WI': Wi}),)
+            detail = sym.show(val)
     else:
         detail = 'no `if np.any(y < 0)` block'
     okw = bool(ok and ok2 and ok3)
@@ -269,15 +271,11 @@ def inverse(cx):
     if ok:
         got = sym.norm(rets[0].value)
         xm = None
-        for st in tn.stmts(ast.If):
-            if sym.norm(st.test) == ('var', 'mask_out_of_range'):
-                b = sym.norm_block(st.body)
-                e = sym.norm_block(st.orelse)
-                a = [s for s in st.body if isinstance(s, ast.Assign)]
-                xm = a[0].targets[0].id if a else None
-                ok = ok and xm is not None and \
-                    b == sym.norm_block(ast.parse('%s = np.ma.masked_where((%s < self._xmin) | (%s > self._xmax), %s)' % (xm, x, x, x)).body) \
-                    and e == sym.norm_block(ast.parse('%s = %s' % (xm, x)).body)
+        for st in tn.stmts(ast.Assign):
+            if isinstance(st.value, ast.IfExp) and isinstance(st.targets[0], ast.Name):
+                xm = st.targets[0].id
+                ok = ok and sym.norm(st.value) == sym.norm(
+                    'np.ma.masked_where((%s < self._xmin) | (%s > self._xmax), %s) if mask_out_of_range else %s' % (x, x, x, x))
         ok = ok and xm is not None and got == sym.norm('np.interp(%s, self._x_range, self._s_range)' % xm)
         dm = tn.default_of('mask_out_of_range')
         ok = ok and isinstance(dm, ast.Constant) and dm.value is True
